@@ -1,5 +1,6 @@
 SPECIFICATION Spec
 CONSTANTS
+ ShapeName = "free"
   Cap = 1
   MaxOps = 5
   Suites = {"CBC", "GCM"}
